@@ -151,7 +151,19 @@ const (
 	undefined
 )
 
+// knownLang is the reference's own knowledge of the codes used in the corpora (ISO 639-1, 639-3 and
+// 639-2 bibliographic codes with their 639-3 equivalents); only codes outside this table are looked
+// up through the library, so that a defect in the library's code table cannot hide from the reference.
+var knownLang = map[string]string{"nor": "nor", "no": "nor", "eng": "eng", "en": "eng", "swa": "swa", "sw": "swa", "fre": "fra", "fra": "fra", "fr": "fra", "ger": "deu", "deu": "deu", "de": "deu"}
+var knownBad = map[string]bool{"xx": true, "norsk": true, "": true, "n0r": true}
+
 func validLang(code string) (string, bool) {
+	if c, ok := knownLang[code]; ok {
+		return c, true
+	}
+	if knownBad[code] {
+		return "", false
+	}
 	l, err := lang.LanguageFromCode(code)
 	if err != nil {
 		return "", false
@@ -162,6 +174,11 @@ func validLang(code string) (string, bool) {
 // call runs an external function in the reference environment.
 func (v *VM) call(sym string, input []byte, r *Resp) (content string, ok bool, undefinedWhy string) {
 	f, have := v.App.Funcs[sym]
+	if !have {
+		if _, st := v.App.Static[sym]; st {
+			f, have = v.App.StaticFunc(sym), true
+		}
+	}
 	if !have {
 		return "", false, "no external function " + sym
 	}
@@ -301,6 +318,11 @@ func (v *VM) Request(input []byte) (r Resp) {
 	if !r.Cont {
 		// graceful end: the final output is the page followed by the last loaded value
 		r.Ends = "graceful"
+		if r.OutKnown && r.FlushErr && v.Last != "" {
+			// the page cannot be rendered but there is a last value: the code shows the value alone
+			// (documentation: the value is displayed "instead" of a missing template); an error is fine, too
+			r.OutAlt, r.HaveAlt = v.Last, true
+		}
 		if r.OutKnown && !r.FlushErr {
 			r.OutAlt = r.Out
 			r.HaveAlt = r.Out != ""
